@@ -116,6 +116,58 @@ def descriptor_states(ctx):
                 ctx.fail('restore-differs:descriptor', f'remote_pickle (remote={remote}) restores {got!r}, standard pickle restores {want!r}', {'kind': 'descriptor_state', 'remote': remote})
 
 
+MIX_LOG = []
+
+
+class PlainFirstBase:
+    pass
+
+
+class RemoteAwareMixin:
+    def __getstate__(self, remote=False):
+        MIX_LOG.append(remote)
+        return dict(self.__dict__)
+
+
+class MarkedBase(F.SupportRemoteGetState):
+    pass
+
+
+class JobDuck(PlainFirstBase, RemoteAwareMixin):
+    pass
+
+
+class JobMarked(MarkedBase, RemoteAwareMixin):
+    pass
+
+
+def mixin_cases(ctx):
+    """the remote-aware __getstate__ comes from a base that is not the first one; the first base was looked at before"""
+    from pyworkers import remote_pickle
+    for cls, first in ((JobDuck, PlainFirstBase), (JobMarked, MarkedBase)):
+        remote_pickle.dumps(first())              # the pickler has seen (and cached its verdict about) the first base
+        for where in ('top', 'in-list', 'attr-of-opt'):
+            o = cls()
+            o.x = 1
+            if where == 'top':
+                g = o
+            elif where == 'in-list':
+                g = [o, 2]
+            else:
+                g = F.OptSet.__new__(F.OptSet)
+                g._id = 1
+                g.k1 = o
+            MIX_LOG.clear()
+            try:
+                remote_pickle.loads(remote_pickle.dumps(g))
+                flags = list(MIX_LOG)
+            except BaseException as e:  # noqa
+                flags = ['error:' + type(e).__name__]
+            ctx.case(('mixin', cls.__name__, where), True, sample={'case': 'remote-aware __getstate__ inherited from a second base', 'class': cls.__name__, 'where': where, 'getstate_remote_flags': flags} if where == 'top' else None)
+            if flags != [True]:
+                ctx.fail('getstate-calls:mixin', f'{cls.__name__} ({where}): __getstate__ was called with remote={flags} instead of exactly once with remote=True', {'kind': 'mixin', 'class': cls.__name__, 'where': where})
+
+
 def _plain(v):
     """ordered dictionaries compare equal to plain ones: the kind of mapping handed to __setstate__ is not observable by =="""
     if isinstance(v, dict):
@@ -181,9 +233,16 @@ def main(ctx: Ctx):
         check_graph(ctx, g, model[i] if model else None, i)
     unusual_states(ctx)
     descriptor_states(ctx)
+    mixin_cases(ctx)
 
 
 def replay(case):
+    if case.get('kind') == 'mixin':
+        class C:
+            def case(self, *a, **k): print('observed', k.get('sample'))
+            def fail(self, sig, what, desc): print('FAIL', sig, what)
+        mixin_cases(C())
+        return
     if case.get('kind') == 'descriptor_state':
         class C:
             def case(self, *a, **k): print('observed', k.get('sample'))
